@@ -30,9 +30,10 @@ FLAGS = [
     'reg_array_whole',  # whole-array / section operations inside the region
     'reg_lb',           # arrays with lower bounds /= 1 are used in the region
     'reg_dimvar',       # an array whose declared extent is a dummy variable is used in the region
-    'reg_dimvar_implicit',  # ... and that dummy variable need not be referenced by the region itself
+    'reg_dimvar_implicit',  # ... and that extent variable (also the PARAMETER of reg_param_dim) need not be referenced by the region
     'reg_2d',           # a 2-D array is used in the region
     'reg_param',        # a local PARAMETER is used in the region
+    'reg_param_dim',    # a local array whose declared extent is a local PARAMETER is used in the region
     'reg_modparam',     # an imported module PARAMETER is used in the region
     'reg_dtype',        # derived-type components are read and written in the region
     'reg_multi',        # two regions in the kernel
@@ -224,9 +225,14 @@ def build(spec):
         decls.append(decl(nm, t, dims=dims))
         env.vars[nm] = {'type': t, 'dims': dims}
         prologue.append(['assign', var(nm), gen.init_value(gk, t)])
-    if F('reg_param') or F('int_host_param'):
+    if F('reg_param') or F('int_host_param') or F('reg_param_dim'):
         decls.insert(len(args), decl('lp0', 'int', param=lit(gk.i(2, 5))))
         env.vars['lp0'] = {'type': 'int', 'dims': None, 'ro': True}
+    if F('reg_param_dim'):
+        # lpa0(lp0): lp0 >= 2 always; the generators only touch elements 1..2 (and the whole array)
+        decls.append(decl('lpa0', 'real', dims=[[1, 'lp0']]))
+        env.vars['lpa0'] = {'type': 'real', 'dims': [[1, 2]], 'declared_n': True}
+        prologue.append(['assign', var('lpa0'), ['r', '0.75']])
     if F('reg_modparam'):
         env.vars['mp0'] = {'type': 'int', 'dims': None, 'ro': True}
     use_dt = F('reg_dtype') or F('int_host_dtype')
@@ -250,7 +256,7 @@ def build(spec):
     nints = 2 if F('int_multi') else 1
     host_for_int = gen.Env()
     host_for_int.vars = {k: dict(v) for k, v in env.vars.items() if not (k == 'lp0' and not F('int_host_param'))
-                         and not (k == 'zn' and not F('int_host_dimvar')) and k != 'mp0'}
+                         and not (k == 'zn' and not F('int_host_dimvar')) and k not in ('mp0', 'lpa0')}
     loopvar_read = None
     for k in range(nints):
         g = b.g(f'int{k}')
@@ -408,6 +414,13 @@ def build(spec):
         if F('reg_param') and 'lp0' in env.vars:
             stmts.append(['assign', var('yi0'), ['b', '+', var('yi0'), var('lp0')]])
             b.use('reg_param')
+        if F('reg_param_dim') and 'lpa0' in env.vars:
+            stmts.append(['assign', ['d', [['lpa0', [lit(1)]]]], ['b', '+', ['d', [['lpa0', [lit(2)]]]], var('xr0')]])
+            b.use('reg_param_dim')
+            if not F('reg_dimvar_implicit'):
+                stmts.append(['assign', var('yi0'), ['b', '+', var('yi0'), var('lp0')]])
+            elif not mentions(stmts, {'lp0'}):
+                b.use('reg_dimvar_implicit')
         if F('reg_modparam'):
             stmts.append(['assign', var('yi0'), ['b', '-', ['b', '*', var('yi0'), lit(2)], var('mp0')]])
             b.use('reg_modparam')
